@@ -499,6 +499,8 @@ pub fn drive_main(args: &[String]) -> i32 {
     for (v, path) in &total.violations {
         let key = (v.prop.clone(), v.clause.clone(), v.sig.clone());
         if printed.contains(&key) {
+            // one replay file per violation class is enough
+            std::fs::remove_file(path).ok();
             continue;
         }
         printed.insert(key);
